@@ -176,3 +176,49 @@ func VC13_Wiring() {
 	rt.Observe("setting", setting)
 	rt.Reach("end")
 }
+
+// VC13_TwoTransports: one listener with different UDP and TCP ports; the same kind of first Route
+// entry arrives over both transports, one request after the other, in either order. Whether the
+// entry designates the receiving listener is decided per request: same port as the transport the
+// request arrived on (and the listener's address or an alias of it) — earlier traffic must not matter.
+func VC13_TwoTransports() {
+	w := newWorld(worldOpts{nBackends: 1, hosts: map[string]string{"proxy.example.com": wListenAddr}})
+	udp := w.listener // UDP 10.0.0.9:5060
+	tcp := &vTrans{proto: "TCP", addr: wListenAddr, port: 5070}
+	w.p.items[0].transports = append(w.p.items[0].transports, tcp)
+	host := []string{wListenAddr, "proxy.example.com"}[rt.Choice("first-host", 2)]
+	entryPort := []int{5060, 5070}[rt.Choice("first-port", 2)]
+	first := "<sip:" + host + ":" + itoa(entryPort) + ";lr>"
+	next := "<sip:10.0.3.5:5090;lr>"
+	order := [][]*vTrans{{udp, tcp}, {tcp, udp}, {udp, udp}}[rt.Choice("arrival-order", 3)]
+	for i, tr := range order {
+		text := "INVITE sip:bob@" + wService + " SIP/2.0\r\nVia: SIP/2.0/" + tr.proto + " 10.0.2.2:5060;branch=z9hG4bKt" + itoa(i) + "\r\nRoute: " + first + "," + next +
+			"\r\nFrom: <sip:alice@example.com>;tag=a\r\nTo: <sip:bob@" + wService + ">\r\nCall-ID: t" + itoa(i) + "\r\nCSeq: 1 INVITE\r\nContent-Length: 0\r\n\r\n"
+		msg, err := parseText(text)
+		rt.Assert(err == nil, "request decodes")
+		if err != nil {
+			return
+		}
+		mark := len(fakenet.Sent)
+		w.p.HandleRawMessage(NewRawMessage("10.0.2.2", 5060, tr, true, msg))
+		rt.Quiesce()
+		own := entryPort == tr.port
+		// own entry consumed: the request goes to the next hop (10.0.3.5:5090) with that entry stripped (keep off);
+		// otherwise the first entry IS the next hop: the request goes to the listener address itself
+		dest := wListenAddr + ":" + itoa(entryPort)
+		if own {
+			dest = "10.0.3.5:5090"
+		}
+		out := sentTo(dest, mark)
+		rt.Assert(len(out) == 1 && len(fakenet.Sent) == mark+1, "two transports: the first Route entry is the listener's own iff it names the port of the transport the request arrived on")
+		if len(out) == 1 {
+			got := refRead(out[0]).listOf("route")
+			if own {
+				rt.Assert(len(got) == 0, "own entry consumed and next-hop entry stripped")
+			} else {
+				rt.Assert(len(got) == 1 && got[0] == next, "foreign first entry (the next hop) stripped, the further entry relayed")
+			}
+		}
+	}
+	rt.Reach("end")
+}
